@@ -364,18 +364,19 @@ bool Hist::opManyPoints() {
 
 // Frames appended up to and just past 32 767 (POINT:FRAMES is a 16-bit field): every call around the boundary is watched by C10 (a throw must
 // leave the object unchanged) and C05 (the three views agree while the calls are accepted).  Saving such an object is C17's business.
-bool Hist::opManyFrames() {
+bool Hist::opManyFrames(size_t targetArg) {
     if (wild || external || !prev.frames.empty() || managedEdited || offSpec) return false;
     std::vector<std::string> labels; { const SParam* q = prev.param("POINT", "LABELS"); if (q && q->type == ezc3d::CHAR) labels = q->sv; }
-    { const SParam* a = prev.param("ANALOG", "USED"); if (a && !a->iv.empty() && a->iv[0] != 0) return false; }
+    bool withChannels = false; { const SParam* a = prev.param("ANALOG", "USED"); if (a && !a->iv.empty() && a->iv[0] != 0) { if (!targetArg || prev.h.sub == 0 || prev.h.sub > 3 || a->iv[0] > 3) return false; withChannels = true; } }
     for (int t = 0; t < 4; ++t) { const SParam* r = prev.param("POINT", "RATE"); if (r && !r->fv.empty() && bitsf(r->fv[0]) != 0.f) break; opSetRate(false); }
     { const SParam* r = prev.param("POINT", "RATE"); if (!r || r->fv.empty() || bitsf(r->fv[0]) == 0.f) return false; }
-    if (labels.empty()) { opDeclarePoint(); const SParam* q = prev.param("POINT", "LABELS"); if (q && q->type == ezc3d::CHAR) labels = q->sv; }
-    if (labels.empty() || labels.size() > 6 || !prev.frames.empty()) return false;
-    Frame f; { Points pts; for (size_t i = 0; i < labels.size(); ++i) { Point p; p.name(labels[i]); p.x(1.5f); p.y(-2.f); p.z((float)i); pts.point(p); } f.add(pts); }
-    size_t target = 32767 + (size_t)rng.range(1, 3);
+    if (labels.empty() && !withChannels) { opDeclarePoint(); const SParam* q = prev.param("POINT", "LABELS"); if (q && q->type == ezc3d::CHAR) labels = q->sv; }
+    if ((labels.empty() && !withChannels) || labels.size() > 6 || !prev.frames.empty()) return false;
+    Frame f; { Points pts; for (size_t i = 0; i < labels.size(); ++i) { Point p; p.name(labels[i]); p.x(1.5f); p.y(-2.f); p.z((float)i); pts.point(p); }
+        if (withChannels) { std::vector<std::string> cl; { const SParam* q = prev.param("ANALOG", "LABELS"); if (q && q->type == ezc3d::CHAR) cl = q->sv; } Analogs an; for (size_t s = 0; s < prev.h.sub; ++s) { SubFrame sf; for (size_t k = 0; k < cl.size(); ++k) { Channel c; c.name(cl[k]); c.data(0.5f * (float)k); sf.channel(c); } an.subframe(sf); } f.add(pts, an); } else f.add(pts); }
+    size_t target = targetArg ? targetArg : 32767 + (size_t)rng.range(1, 3);
     for (size_t i = 0; i < target; ++i) {
-        bool watch = i + 4 >= 32767;
+        bool watch = i + 4 >= target || (i + 4 >= 32767 && i <= 32769);
         if (watch) prev = take(*obj);
         log.pre("frame", "many"); Outcome oc; VF_TRY(oc, obj->frame(f));
         if (oc.threw || watch) { log.ev("frame_append_many", "count=" + std::to_string((unsigned long long)(i + 1)), oc); afterMutator("frame_append_many", oc); if (oc.threw) break; }
@@ -426,6 +427,7 @@ void Hist::rebuildAndCompare() {
     unlink(p1.c_str()); unlink(p2.c_str());
 }
 
+static long int0p(const Snap& s, const char* g, const char* n) { const SParam* q = s.param(g, n); return q && !q->iv.empty() ? q->iv[0] : 0; }
 struct OpW { const char* name; int w; };
 
 void Hist::run() {
@@ -460,10 +462,17 @@ void Hist::run() {
     checkC05(prev, "start");
     int maxops = rng.range(o.maxops / 3 + 1, o.maxops);
     bool manyFramesCase = pf == "c10" && !external && !wild && idx % 40 == 7;      // (points only: 32 770 frames are appended first)
+    bool hugeColumnCase = pf == "c08" && !external && !wild && idx % 120 == 11;      // more frames than 16 bits count, then a point and a channel column
     // most disciplined histories start the README way: rates, then declarations
-    if (!external && rng.chance(70)) { opSetRate(false); if (rng.chance(75)) opSetRate(true); int np = rng.range(0, (int)o.geti("maxpts", 6)); for (int i = 0; i < np; ++i) opDeclarePoint(); int nc = rng.range(0, (int)o.geti("maxch", 4)); if (manyFramesCase) nc = 0; for (int i = 0; i < nc; ++i) opDeclareChannel(); }
+    if (hugeColumnCase) {      // fixed small shape: 100 Hz points, 1-2 sub-frames, 0-2 points, one channel
+        { Param r("RATE"); r.set(std::vector<float>(1, 100.f)); obj->parameter("POINT", r); Param a("RATE"); a.set(std::vector<float>(1, 100.f * (float)rng.range(1, 2))); obj->parameter("ANALOG", a); prev = take(*obj); Outcome none; log.ev("set_rates_for_huge_column_case", "", none); }
+        int np = rng.range(0, 2); for (int i = 0; i < np; ++i) opDeclarePoint(); opDeclareChannel();
+    } else
+    if (!external && rng.chance(70)) { opSetRate(false); if (rng.chance(75)) opSetRate(true); int np = rng.range(0, (int)o.geti("maxpts", 6)); if (hugeColumnCase && np > 2) np = 2; for (int i = 0; i < np; ++i) opDeclarePoint(); int nc = rng.range(0, (int)o.geti("maxch", 4)); if (manyFramesCase) nc = 0; if (hugeColumnCase && nc > 1) nc = 1; for (int i = 0; i < nc; ++i) opDeclareChannel(); }
     int done = 0, guard = 0;
     if (manyFramesCase && opManyFrames()) ++done;
+    if (hugeColumnCase) {
+        if (opManyFrames(65536 + (size_t)rng.range(1, 3))) { opDeclareChannel(); opDeclarePoint(); done = maxops; /* every further step would snapshot 65 537 frames */ } }
     while (done < maxops && guard < maxops * 20) {
         ++guard;
         // diagnosed state: the object was loaded from a file whose ANALOG group lacks the mandatory parameters (empty ANALOG group, a
